@@ -16,6 +16,17 @@ from .oracle import datafits as OD
 MAX_EVENTS = 1500
 
 
+def _explanatory(exc):
+    """An explanatory ValueError: a message in plain words, not one leaked from compiled code."""
+    if type(exc).__name__ != "ValueError":
+        return False
+    msg = str(exc).strip()
+    low = msg.lower()
+    if len(msg) < 12 or "broadcast" in low or "nopython" in low or "numba" in low or "shape" in low and "mismatch" in low:
+        return False
+    return True
+
+
 class Tracer:
     def __init__(self, prob, tol, strategy="subdiff", family="cd", meta=None, keep_arrays=False):
         self.prob = prob
@@ -173,7 +184,7 @@ class Tracer:
     def ret(self, res, exc, w_init=None, Xw_init=None):
         if exc is not None:
             self.events.append(dict(e="raise", exc=type(exc).__name__,
-                                    msg=str(exc)[:300]))
+                                    expl=int(_explanatory(exc)), msg=str(exc)[:300]))
             self.exc = exc
             return
         self.exc = None
@@ -200,8 +211,27 @@ class Tracer:
         except Exception:
             critf = float("nan")
         fin = int(st["fin"] and bool(np.all(np.isfinite(objs))) and not np.isnan(critf))
+        # exactly zero coefficients on penalised all-zero columns (C19)
+        zc = 1
+        try:
+            X = self.prob["X"]
+            wv, _b = PB.split(self.prob, wc)
+            zero_cols = ~np.any(X != 0, axis=0)
+            if self.prob["penalty"]["kind"] in OP.GROUP_BLOCK:
+                grs = OP.groups(self.prob["penalty"])
+                wts = self.prob["penalty"].get("weights", self.prob["penalty"].get("weights_groups"))
+                for g, idx in enumerate(grs):
+                    if np.all(zero_cols[idx]) and wts[g] != 0 and np.any(wv[idx] != 0):
+                        zc = 0
+            else:
+                pen_mask = OP.is_penalized(self.prob["penalty"], X.shape[1])
+                rows = wv.reshape(len(wv), -1)
+                if np.any((rows != 0).any(axis=1) & zero_cols & pen_mask):
+                    zc = 0
+        except Exception:  # noqa: BLE001
+            zc = 1
         self.events.append(dict(
-            e="return", crit=critf, tol=self.tol, nobj=int(len(objs)),
+            e="return", crit=critf, tol=self.tol, nobj=int(len(objs)), zc=zc,
             vfeat=self._vparts[0], vint=self._vparts[1],
             objs=[float(v) for v in objs[:60]], dig=st["dig"], viol=viol,
             vb=PB.vbound(self.tol, self.scale), viol_lo=vlo, viol_hi=vhi, obj=st["obj"],
